@@ -201,6 +201,7 @@ def parse_dot(text):
     nodes = {}
     edges = []
     roots = []
+    ref_labels = {}
     level = None
     for line in text.split('\n'):
         line = line.strip()
@@ -225,12 +226,15 @@ def parse_dot(text):
         if m:
             attrs = dict(re.findall(r'(\w+)="([^"]*)"', m.group(3)))
             roots.append((int(m.group(1)), int(m.group(2)), attrs.get('taillabel') == '-1'))
+    # a reference node whose label names another root is reported under that label
+    roots = [(ref_labels.get(r, r), t, c) for r, t, c in roots]
     return nodes, edges, roots
 
 
 def dot_graph_str(text):
-    nodes, edges, _roots = parse_dot(text)
-    return graph_str([(u, lv) for u, (lv, _lab) in nodes.items()], edges)
+    nodes, edges, roots = parse_dot(text)
+    rs = ','.join(f'{r}>{t}:{show_bool(c)}' for r, t, c in sorted(roots))
+    return graph_str([(u, lv) for u, (lv, _lab) in nodes.items()], edges) + ';R=' + rs
 
 
 # extension points for vertical slices (parser, MDD, dump/load, ...):
